@@ -427,7 +427,7 @@ def harness_own_error(bf):
 # ---------------------------------------------------------------- action text
 
 OP_LESS, OP_UNPUT, OP_INPUT1, OP_INPUT2, OP_INPUT3, OP_MORE, OP_REJECT, OP_BEGIN, OP_PUSH, OP_POP, OP_TOP, \
-    OP_SETBOL, OP_RETURN = range(1, 14)
+    OP_SETBOL, OP_RETURN, OP_SETLINE = range(1, 15)
 
 
 def opmask(*ops):
@@ -460,6 +460,8 @@ def ops_action(ops, api="NR"):
         OP_TOP: ("vf_did_top(yy_top_state(%s)); break;" % only) if api != "C99" else "vf_did_top(yy_top_state(yyscanner)); break;",
         OP_SETBOL: "{ int vf_v = vf_choose(2, 2); yysetbol(vf_v); vf_did_setbol(vf_v, yyatbol()); } break;",
         OP_RETURN: "vf_did_return(); return 1;",
+        OP_SETLINE: ("{ int vf_v = vf_arg_line(); yylineno = vf_v; vf_did_setline(vf_v, yylineno); } break;" if api == "NR" else
+                     "{ int vf_v = vf_arg_line(); yyset_lineno(vf_v, yyscanner); vf_did_setline(vf_v, yyget_lineno(yyscanner)); } break;"),
     }
     L = ["{ int vf_i; for (vf_i = 0; vf_i < VF_OPS_PER_ACTION; vf_i++) { int vf_o = vf_op((long)yyleng); if (!vf_o) break;",
          "  switch (vf_o) {"]
